@@ -18,6 +18,13 @@ res["test_summary"] = [l for l in out.split("\n") if l.startswith("test result")
 run = open(os.path.join(d, "demo", "RUN.txt")).read().strip() if os.path.exists(os.path.join(d, "demo", "RUN.txt")) else ""
 m = re.search(r"(cd \S+\s*&&\s*cargo(?: [\w\-=./]+)+)", run)
 cmd = m.group(1).strip() if m else run.split("\n")[-1]
+import glob, shutil
+tests = glob.glob(os.path.join(d, "demo", "*.rs"))
+mt = re.search(r"cargo test [^\n]*--test (\w+)", run)
+if tests and mt:
+    # the demo is an integration-test file to be copied into <worktree>/tests/
+    feats = " --all-features" if "all-features" in run else (" --features alloc" if "alloc" in run else "")
+    cmd = "cp %s %s/tests/ && cd %s && cargo test --offline%s --test %s" % (" ".join(tests), W, W, feats, mt.group(1))
 res["demo_cmd"] = cmd
 rc1, out1 = sh(cmd, None); res["demo_fails_with_change"] = rc1 != 0; res["demo_out_with"] = out1[-600:]
 sh("git checkout -q -- . && git clean -fdq", W)
